@@ -46,10 +46,15 @@ def odml_tuple_export(odml_tuples):
     """
     str_tuples = ""
     for val in odml_tuples:
-        str_val = ";".join(val)
+        str_val = "(%s)" % ";".join(val)
+        # The tuples are separated by commas; a tuple containing a comma or a
+        # double quote itself has to be quoted like a csv field.
+        if "," in str_val or '"' in str_val:
+            str_val = '"%s"' % str_val.replace('"', '""')
+
         if str_tuples:
-            str_tuples = "%s,(%s)" % (str_tuples, str_val)
+            str_tuples = "%s,%s" % (str_tuples, str_val)
         else:
-            str_tuples = "(%s)" % str_val
+            str_tuples = str_val
 
     return "[%s]" % str_tuples
